@@ -474,6 +474,21 @@ inline int main_impl(int argc, char** argv) {
     signal(SIGABRT, crash_handler);
     signal(SIGTERM, term_handler);
     sim::set_abort_handler(verdict_handler);
+    // warm-up: function-local statics, lazily created thread pools and allocator arenas are initialised by a fixed set of
+    // runs, so that a seed behaves the same first in a fresh process (--one, replay) and in the middle of a batch
+    {
+        Options wo = o;
+        wo.workload = wo.decisions = wo.emit_workload = wo.emit_decisions = nullptr;
+        FILE* saved = stdout;
+        FILE* devnull = fopen("/dev/null", "w");
+        if (devnull) {
+            stdout = devnull;
+            for (uint64_t s = 1; s <= 12; s++) run_one(0x77a7000 + s, wo);
+            fflush(stdout);
+            stdout = saved;
+            fclose(devnull);
+        }
+    }
     if (single) {
         bool ok = run_one(one, o);
         return ok ? 0 : 1;
